@@ -5,8 +5,8 @@ using namespace Clipper2Lib;
 #ifdef USINGZ
 #error "plain build expected"
 #endif
-static void run(const Paths64& subj, const Paths64& clip) {
-  Clipper64 c; c.AddSubject(subj); c.AddClip(clip); Paths64 sol; c.Execute(ClipType::Intersection, FillRule::NonZero, sol);
+static void run(const Paths64& subj, const Paths64& clip, ClipType ct = ClipType::Intersection) {
+  Clipper64 c; c.AddSubject(subj); c.AddClip(clip); Paths64 sol; c.Execute(ct, FillRule::NonZero, sol);
   int64_t sx = 0, sy = 0, n = 0; for (auto& p : sol) for (auto& q : p) { sx += q.x; sy += q.y; ++n; }
   out_i64(sx); out_i64(sy); out_i64(n);
 }
@@ -21,4 +21,11 @@ extern "C" void expect_geom1() {
   subj[0].push_back(Point64((int64_t)0, (int64_t)0)); subj[0].push_back(Point64((int64_t)100, (int64_t)0)); subj[0].push_back(Point64((int64_t)100, (int64_t)100)); subj[0].push_back(Point64((int64_t)0, (int64_t)100));
   clip[0].push_back(Point64((int64_t)10, (int64_t)10)); clip[0].push_back(Point64((int64_t)60, (int64_t)12)); clip[0].push_back(Point64((int64_t)50, (int64_t)70));
   run(subj, clip);
+}
+extern "C" void expect_geom2() {
+  Paths64 subj(2), clip(1);
+  subj[0].push_back(Point64((int64_t)0, (int64_t)0)); subj[0].push_back(Point64((int64_t)100, (int64_t)10)); subj[0].push_back(Point64((int64_t)20, (int64_t)90));
+  subj[1].push_back(Point64((int64_t)10, (int64_t)50)); subj[1].push_back(Point64((int64_t)90, (int64_t)-5)); subj[1].push_back(Point64((int64_t)80, (int64_t)85));
+  clip[0].push_back(Point64((int64_t)200, (int64_t)200)); clip[0].push_back(Point64((int64_t)220, (int64_t)200)); clip[0].push_back(Point64((int64_t)210, (int64_t)220));
+  run(subj, clip, ClipType::Difference);
 }
